@@ -81,6 +81,10 @@ _de += [
     H("key_bool_false", "C13.K.key.bool_false", DE, ["Deserializer<'de> for KeyDeserializer::macro deserialize_parse"], "map key \"false\" reads as bool false"),
     H("key_native_scalars_pass_through", "C13.K.key.native", DE, ["Deserializer<'de> for KeyDeserializer::macro deserialize_parse"],
       "typed keys (i32, u64, f64) keep their value through KeyDeserializer, all values"),
+    H("key_long_integer_literals", "C13.K.key.long_integer_literals", DE, ["Deserializer<'de> for KeyDeserializer::macro deserialize_parse"],
+      "a 21-character decimal string key (longer than any 64-bit spelling) read as u128 is parsed and handed over", kind="bounded", bound="1 concrete literal of 21 characters", timeout=300),
+    H("key_u128_from_21_digit_strings", "C13.K.key.u128_21_digits", DE, ["Deserializer<'de> for KeyDeserializer::macro deserialize_parse"],
+      "every 21-digit decimal string key read as u128 yields its numeric value", kind="bounded", bound="all 21-digit decimal strings", timeout=300),
     H("key_i32_from_string_len3", "C13.K.key.i32_string", DE, ["Deserializer<'de> for KeyDeserializer::macro deserialize_parse"],
       "string keys of <= 3 bytes read as i32 agree with str::parse", kind="bounded", bound="strings of <= 3 bytes", timeout=400),
 ]
